@@ -79,6 +79,11 @@ IndexWriteFault == /\ Up /\ pc = "s4" /\ crashes < MaxCrash /\ H("indexWriteFaul
                    /\ IF ErrProp THEN (pc' = "sealFailed" /\ status' = "Down" /\ crashes' = crashes + 1 /\ served' = "none")
                                  ELSE (pc' = "s5" /\ Keep(<<rel, status, crashes, served>>))
                    /\ Keep(<<rel, files, bad, hasData, delBegun>>)
+\* a rename of a synced temp output fails (frac.syncRename returns the error): the seal stops as for a failed
+\* write; nothing was published and nothing removed
+RenameFault == /\ Up /\ pc \in {"s3", "s5"} /\ crashes < MaxCrash /\ H("renameFault")
+               /\ pc' = "sealFailed" /\ status' = "Down" /\ crashes' = crashes + 1 /\ served' = "none"
+               /\ Keep(<<rel, files, bad, hasData, delBegun>>)
 IndexRename == Step("s5", "s6", "indexRename") /\ files' = (files \ {"indexTmp"}) \cup {"index"}
                /\ bad' = (bad \ {"indexTmp"}) \cup (IF "indexTmp" \in bad THEN {"index"} ELSE {})
                /\ Keep(<<rel, hasData, delBegun, status, served, crashes>>)
@@ -144,7 +149,7 @@ Restart ==
   /\ H("restart") /\ rel' = "none" /\ Keep(<<hasData, delBegun, crashes>>)
 
 Next == \/ CreateDocs \/ CreateMeta \/ Ingest \/ SdocsCreate \/ SdocsWrite \/ SdocsRename
-        \/ IndexCreate \/ IndexWrite \/ IndexWriteFault \/ IndexRename \/ SealSyncDir \/ Publish \/ ReleaseMeta \/ ReleaseDocs
+        \/ IndexCreate \/ IndexWrite \/ IndexWriteFault \/ RenameFault \/ IndexRename \/ SealSyncDir \/ Publish \/ ReleaseMeta \/ ReleaseDocs
         \/ SDel1 \/ SDel2 \/ SDel3 \/ SDel4 \/ SDel5 \/ SDel6 \/ ADel0 \/ ADel1 \/ ADel2
         \/ Crash \/ Restart
 Spec == Init /\ [][Next]_vars
